@@ -43,47 +43,53 @@ def summarise(results, show=40):
     return fails
 
 
-def find_counterexample(engine, make_contract, variant, ob_name, ns=(1, 2, 3), per_query_ms=5000, max_queries=40,
-                        log=None):
+def find_counterexample(engine, make_contract, variant, ob_name, ns=(1, 2, 3), max_queries=60, log=None, budget_s=150):
     """Refutation mode (DESIGN 1.5): re-generate the obligations of `variant` with every timeline length fixed
     to n (index quantifiers unroll), solve the named clause in complete mode (MBQI), concretise the model into a
-    real pre-state + arguments, run the REAL function and re-evaluate the clause.  Returns a dict or None."""
+    real pre-state + arguments, check that the pre-state satisfies the whole invariant (models of the filtered
+    hypothesis set that are not legal pre-states are discarded), run the REAL function and re-evaluate the clause.
+    Returns (replay dict or None, info)."""
+    import time
     import z3
     from .solve import split_goal
-    from .concrete import model_to_desc
+    t0 = time.time()
     tried = 0
+    info = {'models': 0, 'illegal_pre_states': 0, 'not_reproduced': 0}
     for n in ns:
-        c = make_contract(n)
-        engine.register(c, modular=False)
-        engine.cur_key = c.key
-        obs, stats = engine.run_paths(lambda ctx: c.setup(ctx, variant), c.body, c.finish)
-        cands = [o for o in obs if o.name == ob_name]
-        for ob in cands:
-            for g in split_goal(ob.goal):
-                if tried >= max_queries:
-                    return None
-                tried += 1
-                s = z3.Solver()
-                s.set('timeout', per_query_ms)
-                for h in ob.hyps:
-                    s.add(h)
-                s.add(z3.Not(g))
-                if s.check() != z3.sat:
-                    continue
-                m = s.model()
-                call = ob.call
-                try:
-                    rep = c.replay_model(engine, m, call, n)
-                except Exception as ex:     # concretisation problems are not verdicts
+        for full in (False,):
+            c = make_contract(n)
+            c.full_hyps = full
+            engine.register(c, modular=False)
+            engine.cur_key = c.key
+            obs, stats = engine.run_paths(lambda ctx: c.setup(ctx, variant), c.body, c.finish)
+            cands = [o for o in obs if o.name == ob_name]
+            for ob in cands:
+                for g in split_goal(ob.goal):
+                    if tried >= max_queries or time.time() - t0 > budget_s:
+                        return None, info
+                    tried += 1
+                    s = z3.Solver()
+                    s.set('timeout', 12000 if full else 4000)
+                    for h in ob.hyps:
+                        s.add(h)
+                    s.add(z3.Not(g))
+                    if s.check() != z3.sat:
+                        continue
+                    info['models'] += 1
+                    m = s.model()
+                    try:
+                        rep = c.replay_model(engine, m, ob.call, n)
+                    except Exception as ex:     # concretisation problems are not verdicts
+                        if log:
+                            log('model could not be replayed: %r' % (ex,))
+                        continue
+                    rep['bound_n'] = n
+                    rep['path'] = ob.path
+                    rep['clause'] = ob.name
+                    if ob_name in rep['violated'] or any(k.split('.')[0] == ob_name.split('.')[0] for k in rep['violated']):
+                        rep['confirmed'] = True
+                        return rep, info
+                    info['not_reproduced'] += 1
                     if log:
-                        log('model could not be replayed: %r' % (ex,))
-                    continue
-                rep['bound_n'] = n
-                rep['path'] = ob.path
-                rep['clause'] = ob.name
-                if ob_name in rep['violated'] or any(k.split('.')[0] == ob_name.split('.')[0] for k in rep['violated']):
-                    rep['confirmed'] = True
-                    return rep
-                if log:
-                    log('model did not reproduce on the real code: %s -> %s' % (rep['call'], sorted(rep['violated'])))
-    return None
+                        log('model did not reproduce on the real code: %s -> %s' % (rep['call'], sorted(rep['violated'])))
+    return None, info
